@@ -53,7 +53,7 @@ def cnf_vectors(ctx, targets):
 ORDERS3 = ["123", "132", "213", "231", "312", "321"]
 
 
-def ite_key_checks(ctx):
+def ite_key_checks(ctx, mc3=True):
     """RobddAlgo: the standard-triple normalisation (Ite::new) is key-sound (design level) and the real Ite::new
     yields a sound key - in fact the model's key - on every triple (conformance)."""
     # proof (TLAPS, any number of variables, any order / complement predicates): the transcribed Ite::new is key-sound
@@ -65,7 +65,7 @@ def ite_key_checks(ctx):
         gen_and_replay(ctx, "GenIte", cfg, "itevec", "Ite::new on all triples of 2-variable functions, order %s" % o, extra_replay=["--nv", 2])
     orders = ORDERS3 if not ctx.quick else [ORDERS3[ctx.seed % 6], ORDERS3[(ctx.seed + 3) % 6]]
     for o in orders:
-        if not ctx.quick or o == orders[0]:
+        if not ctx.quick or (mc3 and o == orders[0]):
             model_check(ctx, "MC_RobddAlgo", "MC_RobddAlgo_3_%s.cfg" % o, "KeySound / IteRec / CondRec for all 16.7M triples of 3-variable functions, order %s" % o,
                         workers=12, timeout=3000, xmx="8g")
         cfg = mkcfg(ctx, "GenIte_3_%s.cfg" % o, "SPECIFICATION Spec\nCONSTANTS\n  NV = 3\n  Ord <- Ord%s\n  Sample = %d\n  Seed = %d\nCHECK_DEADLOCK FALSE\n"
@@ -138,8 +138,10 @@ def C16(ctx):
         "cache eviction and growth are forced by the rsdd_verif initial-capacity hook (2^0 .. 2^4 slots)",
     ]
     model_check(ctx, "Lru", "MC_Lru.cfg", "Lru (as coded) refines LossyMap, every entry in the slot of its own hash (OwnSlot): 3 keys, 4 hashes, cap 2^0->2^2", workers=6)
-    # a memo in front of a deterministic function is transparent iff its key determines the answer: KeySound
-    ite_key_checks(ctx)
+    # a memo in front of a deterministic function is transparent iff its key determines the answer: KeySound (the 16.7M-triple model
+    # check of 3-variable functions is part of C01's quick tier and of this property's thorough tier; here the proof, the 2-variable
+    # model checks and the replays of every printed triple)
+    ite_key_checks(ctx, mc3=False)
     # proof (TLAPS, any key set, any table sizes, any slot function): a direct-mapped cache with full-key comparison whose growth puts
     # every surviving entry into its own slot (invariant OwnSlot of Lru.tla, model-checked above) answers nothing or the last value stored
     proof_check(ctx, "LruProof", "a direct-mapped cache with full-key comparison is a LossyMap for any keys, sizes and slot function")
